@@ -459,10 +459,16 @@ class FullRunner(Runner):
                     runner.results.append(f'shut {i} {c} {1 if is_failure else 0} '
                                           f'{runner.pid.get(lost.id, "?") if lost is not None else "-"}')
                 d.add_shutdown_callback(shut)
-            if kv.get('shutrestore', '0') == '1':
-                # a zero-time repair: the machine is restored from inside its own failure
-                def repair(dev, is_failure, lost):
+            if kv.get('shutrestore', '0') in ('1', '2'):
+                # 1: a zero-time repair: the machine is restored from inside its own failure
+                # 2: additionally the first maintenance shutdown is vetoed the same way (later ones stand)
+                veto = [kv['shutrestore'] == '2']
+
+                def repair(dev, is_failure, lost, veto=veto):
                     if is_failure:
+                        dev.restore_functionality()
+                    elif veto[0]:
+                        veto[0] = False
                         dev.restore_functionality()
                 d.add_shutdown_callback(repair)
             for c in range(int(kv.get('nrest', '0'))):
